@@ -227,3 +227,63 @@ def amp_table(ns, max_m):
         frac.extend(f)
     n_cases = nmask * ((1 << ns) - ns - 1) * len(AMP_THR) * (max_m + 1)
     return {'lab': lab, 'frac': frac}, n_cases
+
+
+# ----------------------------------------------------------------------------------------------- MC_Edges
+EDGE_THR = [1.0 / 3.0, 0.5]
+
+
+def _edges_chunk(args):
+    nr, pmax, lo, hi = args
+    from bycycle.features.burst import compute_amp_consistency, compute_period_consistency
+    from bycycle.burst import detect_bursts_cycles
+    from bycycle.burst.utils import recompute_edges
+    K = 3 + 4 * nr
+    out = []
+    for ti_ in range(lo, hi):
+        R, D, P, B = [], [], [], []
+        x = ti_
+        for k in range(nr):
+            interior = 0 < k < nr - 1
+            base = 4 * pmax * (2 if interior else 1)
+            d = x % base
+            x //= base
+            if interior:
+                B.append(d % 2)
+                d //= 2
+            else:
+                B.append(0)
+            P.append(d % pmax + 1)
+            d //= pmax
+            D.append(d % 2 + 1)
+            R.append(d // 2 + 1)
+        for t in EDGE_THR:
+            for m in (1, 2):
+                for peak in (0, 1):
+                    try:
+                        df = pd.DataFrame({'volt_rise': np.array(R, dtype=float), 'volt_decay': np.array(D, dtype=float), 'period': np.array(P, dtype=int),
+                                           'volt_amp': (np.array(R, dtype=float) + np.array(D, dtype=float)) / 2,
+                                           'amp_fraction': [0.1 if b else 0.9 for b in B], 'monotonicity': [0.9] * nr})
+                        df['sample_peak' if peak else 'sample_trough'] = np.arange(nr)
+                        df['amp_consistency'] = compute_amp_consistency(df)
+                        df['period_consistency'] = compute_period_consistency(df)
+                        thr = {'amp_fraction_threshold': 0.5, 'amp_consistency_threshold': t, 'period_consistency_threshold': t,
+                               'monotonicity_threshold': 0.5, 'min_n_cycles': m}
+                        df = detect_bursts_cycles(df, **thr)
+                        old = np.asarray(df['is_burst'].values, dtype=bool)
+                        res = recompute_edges(df, thr)
+                        new = np.asarray(res['is_burst'].values, dtype=bool)
+                        e = [1, int(sum(1 << i for i in range(nr) if old[i])), int(sum(1 << i for i in range(nr) if new[i]))]
+                        for c in ('amp_consistency', 'period_consistency'):
+                            for v in res[c].values:
+                                e.extend(pj.rat(v, D=1000))
+                        out.extend(e if len(e) == K else [0] * K)
+                    except Exception:
+                        out.extend([0] * K)
+    return out
+
+
+def edges_table(nr, pmax):
+    ntab = ((4 * pmax) ** nr) * (2 ** (nr - 2))
+    tab = _pool_map(_edges_chunk, [(nr, pmax, lo, hi) for lo, hi in _chunks(ntab)])
+    return tab, ntab * 8
